@@ -258,7 +258,7 @@ def cli_main():
 
         if status != STATUS_OK:
             print('error erasing page:')
-            print(STATUS_DESCRIPTION[status])
+            print(STATUS_DESCRIPTION.get(status, 'Unknown DFU status.'))
             raise SystemExit('erase failed at 0x{:08x} with DFU status {}'.format(addr, status))
 
     print()
@@ -282,7 +282,7 @@ def cli_main():
 
         if status != STATUS_OK:
             print('error setting address:')
-            print(STATUS_DESCRIPTION[status])
+            print(STATUS_DESCRIPTION.get(status, 'Unknown DFU status.'))
             raise SystemExit('write failed at 0x{:08x} with DFU status {}'.format(addr, status))
 
         # write the code chunk
@@ -295,7 +295,7 @@ def cli_main():
 
         if status != STATUS_OK:
             print('error writing page:')
-            print(STATUS_DESCRIPTION[status])
+            print(STATUS_DESCRIPTION.get(status, 'Unknown DFU status.'))
             raise SystemExit('write failed at 0x{:08x} with DFU status {}'.format(addr, status))
 
     print()
